@@ -472,6 +472,13 @@ func (c *Client) monitor(ctx context.Context) {
 						}
 						dlog.Printf("namespaces updated")
 
+						// the session and its subscriptions are still alive
+						// on the server. Republish what has been missed so
+						// that the publish loop is resumed.
+						subsToRepublish = c.SubscriptionIDs()
+						subsToRecreate = nil
+						availableSeqs = map[uint32][]uint32{}
+
 						action = restoreSubscriptions
 
 					case recreateSession:
